@@ -1,7 +1,7 @@
 (* C10 — transport capacity is conserved over any history of good and failed transfers. *)
 From J1939 Require Import Base CodecGlue Model21 Model22.
 From J1939.gen Require Import Codec Tp21Gen CaGen Tp22Gen.
-From J1939P Require Import CodecProofs Flat Tp21Seg Tp21Resp Tp21Orig TimeoutProofs MpgProofs PoolProofs.
+From J1939P Require Import CodecProofs Flat Tp21Seg Tp21Resp Tp21Orig TimeoutProofs MpgProofs PoolProofs ConserveProofs.
 
 (* T10.2: inbound sessions never consume or release the stack's own outbound capacity — for EVERY frame *)
 Theorem C10_inbound_neutral : forall m now can_id data, skel (fnode22 (notify22 m now can_id data)) = skel m.
@@ -69,3 +69,32 @@ Theorem C10_j1939_21_waiting_session_expires : forall key now nw n k b,
   (s, OTx (tp21_abort (s_src b) (s_dst b) tp21_reason_TIMEOUT (s_pgn b)) :: os, r).
 Proof. exact snd_timeout_releases. Qed.
 Print Assumptions C10_j1939_21_waiting_session_expires.
+
+(* T10.1 (history form, J1939-22): after ANY sequence of submissions (accepted or refused), received frames
+   (well-formed or not: aborts, stray CTS / EOMA, foreign traffic, junk) and job-thread iterations at ANY instants,
+   the conservation invariant Inv holds — every session in flight holds the taken flag of its own number in the pool
+   of its kind, no two sessions of a kind share a number, and every taken flag is held by a session (no leak) *)
+Theorem C10_capacity_conserved_any_history : forall maxp civ biv evs,
+  Forall hev_ok evs -> Inv (fold_left hstep evs (init_node22 maxp civ biv)).
+Proof. exact capacity_conserved_any_history. Qed.
+Print Assumptions C10_capacity_conserved_any_history.
+
+(* ... so once every session of such a history has ended, the full capacity (8 + 4) is available again *)
+Theorem C10_idle_stack_has_full_capacity : forall maxp civ biv evs,
+  Forall hev_ok evs -> let m := fold_left hstep evs (init_node22 maxp civ biv) in
+  f_snd m = [] -> Forall (fun b => b = true) (f_rts m) /\ length (f_rts m) = tp22_pool_rts /\
+                  Forall (fun b => b = true) (f_bam m) /\ length (f_bam m) = tp22_pool_bam.
+Proof. exact idle_after_any_history. Qed.
+Print Assumptions C10_idle_stack_has_full_capacity.
+
+(* the same for every handler taken alone, closed under interference: whatever the receive path of the same stack
+   does between an emission of the handler and its continuation (re-entrant delivery at zero latency, pre-emption
+   by the receive thread — any change that keeps the session skeleton, which is what EVERY received frame is,
+   C10_inbound_guarantee), the handler still ends in an Inv state *)
+Theorem C10_handlers_keep_invariant_under_interference : forall m e, Inv m -> hev_ok e -> guar Inv (hact m e).
+Proof. exact hact_inv. Qed.
+Print Assumptions C10_handlers_keep_invariant_under_interference.
+Theorem C10_inbound_guarantee : forall m now can_id ext remote err data,
+  guar (fun s => skel s = skel m) (listener22 m now can_id ext remote err data).
+Proof. exact inbound_guar_listener. Qed.
+Print Assumptions C10_inbound_guarantee.
